@@ -84,6 +84,10 @@ pub enum Stage {
     ConcatBefore(Vec<i64>, Option<Simple>),
     /// map(x -> from_iter(g(x)) | stage) then flatten
     FlatMap(u8, Option<Simple>),
+    /// concat!(upstream, upstream): the same source value subscribed twice in sequence
+    ConcatSelf,
+    /// map(_ -> P) then flatten, where P is ONE sub-pipeline value returned for every element
+    FlatMapShared(Vec<i64>, Option<Simple>),
 }
 
 pub fn g(kind: u8, x: i64) -> Vec<i64> {
@@ -139,13 +143,29 @@ pub fn apply_stage(s: &Stage, src: Src) -> Src {
                 callbag::map(move |x: i64| sub_pipeline(&g(kind, x), &st, 2))(src);
             Arc::new(callbag::flatten(mapped))
         },
+        Stage::ConcatSelf => Arc::new(callbag::concat(vec![src.clone(), src].into_boxed_slice())),
+        Stage::FlatMapShared(ys, st) => {
+            let shared = sub_pipeline(ys, st, 2);
+            let mapped: Source<Src> = callbag::map(move |_x: i64| shared.clone())(src);
+            Arc::new(callbag::flatten(mapped))
+        },
     }
+}
+
+type SinkSlot = Arc<std::sync::Mutex<Option<Arc<callbag::Sink<i64>>>>>;
+
+thread_local! {
+    /// downstream sinks held by taps: cleared after every run to break the for_each <-> source
+    /// reference cycle (otherwise every run leaks its whole subscription graph)
+    static SLOTS: RefCell<Vec<SinkSlot>> = const { RefCell::new(Vec::new()) };
 }
 
 fn light_tap(src: Src) -> Src {
     Arc::new(
         (move |m: Message<Never, i64>| {
             if let Message::Handshake(sink) = m {
+                let slot: SinkSlot = Arc::new(std::sync::Mutex::new(Some(sink)));
+                SLOTS.with(|s| s.borrow_mut().push(slot.clone()));
                 let wrapped: Arc<callbag::Sink<i64>> = Arc::new(
                     (move |m: Message<i64, Never>| {
                         TAP.with(|t| {
@@ -158,7 +178,10 @@ fn light_tap(src: Src) -> Src {
                                 Message::Pull => {},
                             }
                         });
-                        sink(m);
+                        let sink = slot.lock().unwrap_or_else(|e| e.into_inner()).clone();
+                        if let Some(sink) = sink {
+                            sink(m);
+                        }
                     })
                     .into(),
                 );
@@ -167,6 +190,13 @@ fn light_tap(src: Src) -> Src {
         })
         .into(),
     )
+}
+
+fn clear_slots() {
+    let v: Vec<SinkSlot> = SLOTS.with(|s| std::mem::take(&mut *s.borrow_mut()));
+    for slot in v {
+        *slot.lock().unwrap_or_else(|e| e.into_inner()) = None;
+    }
 }
 
 #[derive(Clone, Debug, PartialEq, Eq)]
@@ -222,6 +252,7 @@ pub fn run_real(stages: &[Stage], input: &Input) -> Outcome {
         let src = light_tap(src);
         callbag::for_each(|x: i64| SEEN.with(|s| s.borrow_mut().push(x)))(src);
     }));
+    clear_slots();
     match r {
         Ok(()) => collect(false, false),
         Err(p) => {
@@ -385,21 +416,63 @@ fn rsub(ys: &[i64], st: &Option<Simple>, class: u8) -> Box<dyn Node> {
     }
 }
 
+struct RFlatShared {
+    outer: Box<dyn Node>,
+    ys: Vec<i64>,
+    st: Option<Simple>,
+    cur: Option<Box<dyn Node>>,
+    done: bool,
+}
+impl Node for RFlatShared {
+    fn pull(&mut self, c: &mut [u32; 3]) -> Result<Option<i64>, ()> {
+        if self.done {
+            return Ok(None);
+        }
+        loop {
+            if let Some(cur) = self.cur.as_mut() {
+                match cur.pull(c)? {
+                    Some(x) => return Ok(Some(x)),
+                    None => self.cur = None,
+                }
+            }
+            match self.outer.pull(c)? {
+                // every subscription of the shared sub-pipeline is a fresh traversal
+                Some(_) => self.cur = Some(rsub(&self.ys, &self.st, 2)),
+                None => {
+                    self.done = true;
+                    return Ok(None);
+                },
+            }
+        }
+    }
+}
+
+/// build the reference node for the first `k` stages (a cold source: every call is a fresh
+/// subscription)
+fn rbuild(stages: &[Stage], input: &Input) -> Box<dyn Node> {
+    match stages.split_last() {
+        None => match input {
+            Input::List(xs) => Box::new(RSrc { class: 0, xs: xs.clone(), unbounded: false, pos: 0 }),
+            Input::Unbounded => Box::new(RSrc { class: 0, xs: vec![], unbounded: true, pos: 0 }),
+        },
+        Some((last, rest)) => {
+            let node = rbuild(rest, input);
+            match last {
+                Stage::S(x) => rsimple(x, node),
+                Stage::ConcatAfter(ys, st) => Box::new(RChain { a: node, b: rsub(ys, st, 1), on_b: false }),
+                Stage::ConcatBefore(ys, st) => Box::new(RChain { a: rsub(ys, st, 1), b: node, on_b: false }),
+                Stage::FlatMap(kind, st) => Box::new(RFlat { outer: node, kind: *kind, st: st.clone(), cur: None, done: false }),
+                Stage::ConcatSelf => Box::new(RChain { a: node, b: rbuild(rest, input), on_b: false }),
+                Stage::FlatMapShared(ys, st) => Box::new(RFlatShared { outer: node, ys: ys.clone(), st: st.clone(), cur: None, done: false }),
+            }
+        },
+    }
+}
+
 /// Reference outcome: Some((values f must see, next() calls per class)) or None if the demand
 /// on an unbounded input is not finite (then the case is outside the property's quantifier).
 pub fn run_ref(stages: &[Stage], input: &Input) -> Option<(Vec<i64>, [u32; 3])> {
-    let mut node: Box<dyn Node> = match input {
-        Input::List(xs) => Box::new(RSrc { class: 0, xs: xs.clone(), unbounded: false, pos: 0 }),
-        Input::Unbounded => Box::new(RSrc { class: 0, xs: vec![], unbounded: true, pos: 0 }),
-    };
-    for s in stages {
-        node = match s {
-            Stage::S(x) => rsimple(x, node),
-            Stage::ConcatAfter(ys, st) => Box::new(RChain { a: node, b: rsub(ys, st, 1), on_b: false }),
-            Stage::ConcatBefore(ys, st) => Box::new(RChain { a: rsub(ys, st, 1), b: node, on_b: false }),
-            Stage::FlatMap(kind, st) => Box::new(RFlat { outer: node, kind: *kind, st: st.clone(), cur: None, done: false }),
-        };
-    }
+    let mut node = rbuild(stages, input);
     let mut c = [0u32; 3];
     let mut out = vec![];
     loop {
@@ -458,6 +531,12 @@ pub fn alphabet(thorough: bool) -> Vec<Stage> {
         for st in &inner_stages {
             v.push(Stage::FlatMap(kind, st.clone()));
         }
+    }
+    v.push(Stage::ConcatSelf);
+    v.push(Stage::FlatMapShared(vec![7, 8], None));
+    v.push(Stage::FlatMapShared(vec![7, 8, 9], Some(Simple::Skip(1))));
+    if thorough {
+        v.push(Stage::FlatMapShared(vec![7, 8], Some(Simple::Take(1))));
     }
     v
 }
